@@ -2,6 +2,8 @@ import PyYetiVerif.Model.Op4
 import PyYetiVerif.Model.Op4Ascii
 import PyYetiVerif.Model.Op4Variants
 import PyYetiVerif.Model.PyFloat
+import PyYetiVerif.Model.Op4AsciiBits
+import PyYetiVerif.Model.Op4Input
 /-! Line protocol for C04 (all numbers decimal, byte strings hex).
 
   cs i0 i1 …                      → `s:l s:l …`                       (`_sparse_col_stats`)
@@ -185,16 +187,7 @@ def showDir : Nat → List (List Nat × Int × Int × Int × Int) → List Strin
 /-! ASCII reader: a decimal becomes the nearest double (`float()`), a complex element is built as
 `real + 1j * imag` in Python complex arithmetic (`cooEntry`; NaN real part when the imaginary part
 overflowed to ±inf), in the dense and in the sparse read -/
-def decBits (x : PyYetiVerif.Op4A.Dec10) : Nat :=
-  if x.exp.natAbs > 6000 then (if x.exp < 0 ∨ x.man = 0 then PyYetiVerif.PyFloat.toBits x.neg 0 1 else PyYetiVerif.PyFloat.infBits x.neg)
-  else if x.exp ≥ 0 then PyYetiVerif.PyFloat.toBits x.neg (x.man * 10 ^ x.exp.toNat) 1
-  else PyYetiVerif.PyFloat.toBits x.neg x.man (10 ^ (-x.exp).toNat)
-
-def entryBits (cplx : Bool) (x : PyYetiVerif.Op4A.AEntry) : Entry :=
-  let im := decBits x.2
-  -- an imaginary part that overflows to ±inf: `1j * inf = (0*inf - 0) + inf j`, the real part is the default NaN
-  if cplx ∧ im % 9223372036854775808 = 9218868437227405312 then (0xFFF8000000000000, im) else
-  cooEntry cplx (decBits x.1, if cplx then im else 0)
+open PyYetiVerif.Op4A (decBits entryBits)
 
 def showDecA (mode : Char) (count : Nat) (d : PyYetiVerif.Op4A.ADec) : String :=
   let cplx := decide (3 ≤ d.mtype)
